@@ -802,6 +802,75 @@ Proof.
   - intros b b' S. apply G.
 Qed.
 
+(* lost response: the put is applied, the flight ends without a local record *)
+Lemma inv_put_lost cfg s b0 r0 l cr :
+  inv cfg s ->
+  (alookup r0 (m_flights (get_mgr s b0)) = Some (FTxn l) \/
+   alookup r0 (m_flights (get_mgr s b0)) = Some (FReacq l)) ->
+  0 < cr ->
+  (forall x, get (s_etcd s) (lease_key cfg r0) = Some x -> kv_val x = b0) ->
+  inv cfg (mkState (eput (s_etcd s) (lease_key cfg r0) (mkKV b0 l cr (e_rev (s_etcd s) + 1)))
+                   (set_mgr s b0 (with_flights (get_mgr s b0) (aremove r0 (m_flights (get_mgr s b0)))))).
+Proof.
+  intros I Fl Hcr Hv. pose proof I as (W & L & M & G).
+  assert (Fs : 0 < l < e_next_lease (s_etcd s)).
+  { destruct Fl as [Fl|Fl]; apply (lr_flight_sess _ _ _ _ _ (L b0 r0)) in Fl; exact Fl. }
+  assert (Ow : alookup r0 (m_owned (get_mgr s b0)) = None).
+  { destruct Fl as [Fl|Fl]; apply (lr_flight_not_owned _ _ _ _ _ (L b0 r0)) in Fl; exact Fl. }
+  apply inv_update; try assumption.
+  - apply wf_eput; cbn; try assumption; lia.
+  - intros r. destruct (bytes_eq_dec r0 r) as [<-|N].
+    + pose proof (L b0 r0) as Lr. lr_fields Lr.
+      constructor; mgr_cbn; rewrite ?alookup_aremove_same, ?Ow; cbn [eput e_rev e_next_lease]; lr_auto.
+      * revert H0. rewrite get_eput, bytes_eqb_refl. destruct (visible _ _); [|discriminate].
+        intros A. inversion A; subst x. reflexivity.
+      * specialize (o8 _ H). lia.
+    + apply (local_r_eput cfg _ b0 (get_mgr s b0)); mgr_cbn; try reflexivity; try tauto; [apply L| |].
+      * now apply alookup_aremove_other.
+      * intros E. apply lease_key_inj in E. congruence.
+  - apply (local_m_mono (s_etcd s)); [apply M|cbn; lia|tauto].
+  - intros b r N. apply (local_r_eput cfg _ b (get_mgr s b)); try reflexivity; try tauto; [apply L|].
+    intros _ x A. rewrite (Hv x A). congruence.
+  - intros b N. apply (local_m_mono (s_etcd s)); [apply M|cbn; lia|tauto].
+  - intros b S N A. mgr_cbn. intros B. apply N. apply (G b b0 S A B).
+Qed.
+
+Lemma inv_acqtxn_lost cfg s b0 r0 : inv cfg s -> inv cfg (fst (step cfg s (AcqTxnLost b0 r0))).
+Proof.
+  intros I. pose proof I as (W & L & M & G). cbn [step].
+  destruct (alookup r0 (m_flights (get_mgr s b0))) as [[l|l|l rv]|] eqn:Fl; try exact I.
+  rewrite txn_acquire.
+  2: { intros x A. apply get_In in A. destruct W as (_ & _ & _ & W3). apply (W3 _ _ (proj1 A)). }
+  destruct (get (s_etcd s) (lease_key cfg r0)) as [x|] eqn:Gk.
+  - cbn [fst]. apply (inv_flights_update cfg s b0 r0); try assumption.
+    + intros r N. now apply alookup_aremove_other.
+    + now rewrite alookup_aremove_same.
+  - destruct ((l =? 0) || lease_live (s_etcd s) l) eqn:Lo; cbn [fst].
+    + apply (inv_put_lost cfg s b0 r0 l); try assumption; [now left| |].
+      * destruct W as (W0 & _). lia.
+      * intros x A. congruence.
+    + apply (inv_flights_update cfg s b0 r0); try assumption.
+      * intros r N. now apply alookup_aremove_other.
+      * now rewrite alookup_aremove_same.
+Qed.
+
+Lemma inv_reacqtxn_lost cfg s b0 r0 : inv cfg s -> inv cfg (fst (step cfg s (ReacqTxnLost b0 r0))).
+Proof.
+  intros I. pose proof I as (W & L & M & G). cbn [step].
+  destruct (alookup r0 (m_flights (get_mgr s b0))) as [[l|l|l rv]|] eqn:Fl; try exact I.
+  rewrite txn_reacquire.
+  assert (Rm : inv cfg (mkState (s_etcd s) (set_mgr s b0 (with_flights (get_mgr s b0) (aremove r0 (m_flights (get_mgr s b0))))))).
+  { apply (inv_flights_update cfg s b0 r0); try assumption.
+    - intros r N. now apply alookup_aremove_other.
+    - now rewrite alookup_aremove_same. }
+  destruct (get (s_etcd s) (lease_key cfg r0)) as [x|] eqn:Gk; [|exact Rm].
+  destruct (bytes_eqb (kv_val x) b0) eqn:Ev; [|exact Rm].
+  destruct ((l =? 0) || lease_live (s_etcd s) l) eqn:Lo; cbn [fst]; [|exact Rm].
+  apply (inv_put_lost cfg s b0 r0 l); try assumption; [now right| |].
+  - apply get_In in Gk. destruct W as (_ & _ & _ & W3). apply (W3 _ _ (proj1 Gk)).
+  - intros y A. rewrite Gk in A. inversion A; subst y. now apply bytes_eqb_eq.
+Qed.
+
 Lemma inv_step cfg s ev :
   c_guard cfg = true -> inv cfg s -> inv cfg (fst (step cfg s ev)).
 Proof.
@@ -816,6 +885,8 @@ Proof.
   - now apply inv_releaseall.
   - now apply inv_restart.
   - now apply inv_orphan.
+  - now apply inv_acqtxn_lost.
+  - now apply inv_reacqtxn_lost.
 Qed.
 
 Lemma inv_init cfg : inv cfg init.
